@@ -116,6 +116,31 @@ puthex(const void *p, size_t n)
         printf("%02x", b[i]);
 }
 
+/* data values: small arrays in full, large ones as a 64-bit FNV-1a digest of all bytes plus the digests of 16
+ * equal segments (so a report says which part of the array differs) */
+#define FULL_DATA_MAX 65536
+static void
+putdata(const void *p, size_t n)
+{
+    const uint8 *b = p;
+    size_t       i, k, seg;
+    unsigned long long h = 1469598103934665603ULL;
+    if (n <= FULL_DATA_MAX) {
+        puthex(p, n);
+        return;
+    }
+    for (i = 0; i < n; i++)
+        h = (h ^ b[i]) * 1099511628211ULL;
+    printf("digest %lu %016llx segments", (unsigned long)n, h);
+    seg = (n + 15) / 16;
+    for (k = 0; k < 16; k++) {
+        unsigned long long hs = 1469598103934665603ULL;
+        for (i = k * seg; i < n && i < (k + 1) * seg; i++)
+            hs = (hs ^ b[i]) * 1099511628211ULL;
+        printf(" %016llx", hs);
+    }
+}
+
 static void
 putname(const char *s)
 {
@@ -739,7 +764,7 @@ dump_sds(int32 index, int depth)
         if (SDreaddata(id, start, NULL, dims, b) == FAIL)
             DIE("SDreaddata %s", name);
         printf("C data ");
-        puthex(b, nel * (size_t)sz);
+        putdata(b, nel * (size_t)sz);
         printf("\n");
         free(b);
     }
@@ -815,7 +840,7 @@ dump_gr(int32 index, int depth)
     if (GRreqimageil(id, il) == FAIL || GRreadimage(id, start, NULL, dims, b) == FAIL)
         DIE("GRreadimage %s", name);
     printf("C data ");
-    puthex(b, nb);
+    putdata(b, nb);
     printf("\n");
     free(b);
     memset(&ci, 0, sizeof ci);
@@ -890,7 +915,7 @@ dump_vs(int32 ref, int depth)
         if (VSsetfields(vs, fields) == FAIL || VSread(vs, b, nrec, FULL_INTERLACE) == FAIL)
             DIE("VSread %s", name);
         printf("C data ");
-        puthex(b, (size_t)nrec * (size_t)vsize);
+        putdata(b, (size_t)nrec * (size_t)vsize);
         printf("\n");
         free(b);
     }
